@@ -65,6 +65,15 @@ SIMW = {
 }
 
 
+# return-from-subroutine steps: the return address is put on the stack with write; instruction, stack pointer command,
+# byte address the address is written at relative to sp, what gets added to it
+SIMR = {
+    "6502": ("rts", "set sp=0x%x", 0x100 + 1, 1, 0xfd),
+    "z80": ("ret", "set sp=0x%x", 0, 0, 0x4f0),
+    "msp430": ("ret", "set sp=0x%x", 0, 0, 0x4f0),
+}
+
+
 def model_plan_addrs(plan, bpa):
     """rough size of the image a plan builds (keeps the whole-image disasm check to small images)"""
     n = len(plan["load"]["data"]) // 2 if plan["load"] else 0
@@ -258,6 +267,9 @@ class C19(Engine):
                     # run into a breakpoint: the address given to break is in the same units as every other address
                     n = rng.range(2, 6)
                     plan["ops"].append({"op": "breakrun", "addr": a, "imms": [rng.below(1 << bits) for _ in range(n)], "k": rng.range(1, n - 1)})
+                elif cpu in SIMR and rng.chance(1, 6):
+                    # what write puts on the stack is where the return instruction continues
+                    plan["ops"].append({"op": "simstep", "addr": a, "imm": 0, "ret": 0x1000 + 2 * rng.below(0x3000)})
                 elif cpu in SIMW and rng.chance(1, 3):
                     # what the simulator stores is what print shows afterwards - also at the top and bottom of the 64 KiB space
                     d = rng.pick([0xffff, 0xfffe, 0xff00, 0x240 + rng.below(64), 0x3c0 + rng.below(64)])
@@ -381,6 +393,8 @@ class C19(Engine):
                 if "fetch" in op:
                     # position dependent (symbolic mode): assembled where it will be placed
                     src = ".%s\n.org 0x%x\n  %s\n" % (cpu, op["addr"], SIMF[cpu][op["fetch"]][0] % op["daddr"])
+                if "ret" in op:
+                    src = ".%s\n.org 0x%x\n  %s\n" % (cpu, op["addr"], SIMR[cpu][0])
                 if "store" in op:
                     tw = SIMW[cpu][op["store"]]
                     src = ".%s\n.org 0x%x\n  %s\n" % (cpu, op["addr"], tw[0] % op["daddr"] if len(tw) == 2 else tw[0])
@@ -481,6 +495,22 @@ class C19(Engine):
                     if sg and v & (1 << (8 * wd - 1)):
                         v |= 0xffffffff & ~((1 << (8 * wd)) - 1)
                     op = dict(op, imm=v)
+                if "ret" in op:
+                    ins, spcmd, rel, plus, spv = SIMR[cpu]
+                    at = spv + rel
+                    console.append(spcmd % spv)
+                    expect.append(("none", None))
+                    console.append("write 0x%x 0x%02x 0x%02x" % (at, op["ret"] & 0xff, op["ret"] >> 8))
+                    expect.append(("write", (1, at, [op["ret"] & 0xff, op["ret"] >> 8])))
+                    touch(at * bpa, 2)
+                    console.append("write 0x%x %s" % (a, " ".join("0x%02x" % b for b in blob)))
+                    expect.append(("write", (1, a, list(blob))))
+                    touch(a * bpa, len(blob))
+                    console.append("set pc=0x%x" % a)
+                    expect.append(("none", None))
+                    console.append("step")
+                    expect.append(("simret", (a, (op["ret"] + plus) & 0xffff)))
+                    continue
                 if "store" in op:
                     if op["daddr"] <= a + len(blob) + 4 and op["daddr"] + 4 >= a:
                         continue         # (never over its own instruction)
@@ -792,6 +822,15 @@ class C19(Engine):
                     res.viol("breakrun:stopped-after-another-instruction:%s" % cpu, want="%x" % want, got=regs[-1], cmd=console[idx - 3:idx + 1])
                 res.probe("breakrun_checked")
                 res.probe("breakrun_checked:" + cpu)
+            elif kind == "simret":
+                a, want = payload
+                mp = re.search(SIM[cpu][3], joined)
+                if not mp:
+                    res.unparsed += 1
+                    continue
+                if int(mp.group(1), 16) != want:
+                    res.viol("simret:continues-at-other-address:%s" % cpu, want="%x" % want, got=mp.group(1), cmd=console[idx - 4:idx + 1])
+                res.probe("simret_checked:" + cpu)
             elif kind == "simstore":
                 a, d, v, ilen, width = payload
                 m = re.search(r"^.! 0x([0-9a-f]+):", joined, re.M)
